@@ -245,4 +245,276 @@ theorem requestURI_parse (base : URL) (p : Bytes) (q : Option Bytes)
       · have := hesc { base with path := u.path, rawPath := u.rawPath, rawQuery := u.rawQuery, forceQuery := u.forceQuery } rfl rfl
         simp only [requestURI]; rw [this]; simp [hf, hrq, hne]
 
+/-! ## absolute-form targets -/
+
+/-- `scheme = ALPHA *( ALPHA / DIGIT / "+" / "-" / "." )` -/
+def schemeChar (c : Char) : Bool := isAlpha c || isDigit c || c = '+' || c = '-' || c = '.'
+def validScheme : Bytes → Bool
+  | [] => false
+  | c :: r => isAlpha c && r.all schemeChar
+
+/-- `[ "?" query ]` -/
+def qstr : Option Bytes → Bytes
+  | some q' => '?' :: q'
+  | none => []
+
+theorem target_eq (p : Bytes) (q : Option Bytes) : target p q = p ++ qstr q := by
+  cases q <;> rfl
+
+/-- `scheme "://" authority path-abempty [ "?" query ]` -/
+def absTarget (s a p : Bytes) (q : Option Bytes) : Bytes := s ++ ':' :: '/' :: '/' :: (a ++ target p q)
+
+/-- ForceQuery / RawQuery for a target's query part -/
+def qparts : Option Bytes → Bool × Bytes
+  | none => (false, [])
+  | some [] => (true, [])
+  | some q' => (false, q')
+
+theorem splitQuery_target (b : Bytes) (hb : '?' ∉ b) (q : Option Bytes) :
+    splitQuery (b ++ qstr q) = (b, qparts q) := by
+  cases q with
+  | none =>
+    have h1 := forceQuery_test_false_noq b hb
+    show splitQuery (b ++ []) = _
+    rw [List.append_nil]
+    unfold splitQuery
+    split
+    · next h =>
+      simp only [Bool.and_eq_true, decide_eq_true_eq] at h
+      simp [h.1, h.2] at h1
+    · rw [cutQ_noq b hb]; rfl
+  | some q' =>
+    show splitQuery (b ++ '?' :: q') = _
+    by_cases hne : q' = []
+    · subst hne
+      have h1 := forceQuery_test_true b hb
+      have h2 : (b ++ ['?']).dropLast = b := List.dropLast_concat
+      unfold splitQuery
+      split
+      · rw [h2]; rfl
+      · next h =>
+        simp only [Bool.and_eq_true, decide_eq_true_eq] at h h1
+        exact absurd h1 h
+    · have h1 := forceQuery_test_false b q' hb hne
+      unfold splitQuery
+      split
+      · next h =>
+        simp only [Bool.and_eq_true, decide_eq_true_eq] at h
+        simp [h.1, h.2] at h1
+      · rw [cutQ_append b q' hb]
+        cases q' with
+        | nil => exact absurd rfl hne
+        | cons x xs => rfl
+
+theorem requestURI_shape (v : URL) (e : Bytes) (he : escapedPath v = e) (q : Option Bytes)
+    (hf : v.forceQuery = (qparts q).1) (hr : v.rawQuery = (qparts q).2) :
+    requestURI v = (if e = [] then ['/'] else e) ++ qstr q := by
+  simp only [requestURI, he, hf, hr]
+  cases q with
+  | none => simp [qparts, qstr]
+  | some q' => cases q' <;> simp [qparts, qstr]
+
+theorem qsuffix (q : Option Bytes) :
+    (if (qparts q).1 || (qparts q).2 ≠ [] then '?' :: (qparts q).2 else []) = qstr q := by
+  cases q with
+  | none => simp [qparts, qstr]
+  | some q' => cases q' <;> simp [qparts, qstr]
+
+theorem isAlpha_isAlnum (c : Char) (h : isAlpha c = true) : isAlnum c = true := by
+  simp only [isAlpha, isAlnum, Bool.or_eq_true, Bool.and_eq_true, decide_eq_true_eq] at h ⊢
+  rcases h with h | h
+  · exact Or.inl (Or.inl h)
+  · exact Or.inl (Or.inr h)
+
+theorem isDigit_isAlnum (c : Char) (h : isDigit c = true) : isAlnum c = true := by
+  simp only [isDigit, isAlnum, Bool.or_eq_true, Bool.and_eq_true, decide_eq_true_eq] at h ⊢
+  exact Or.inr h
+
+/-- characters of schemes and simple authorities: nothing that `url.parse` treats specially except `:` -/
+def plainChar (c : Char) : Bool := isAlnum c || c = '.' || c = '-' || c = '+' || c = ':'
+
+theorem plainChar_facts (c : Char) (h : plainChar c = true) :
+    c ≠ '?' ∧ c ≠ '/' ∧ ¬ (c.toNat < 0x20 ∨ c.toNat = 0x7f) := by
+  simp only [plainChar, Bool.or_eq_true, decide_eq_true_eq] at h
+  rcases h with (((h | h) | h) | h) | h
+  · have := isAlnum_range c h
+    refine ⟨?_, ?_, by omega⟩ <;> (intro e; subst e; exact absurd h (by decide))
+  all_goals (subst h; decide)
+
+theorem schemeChar_plain (c : Char) (h : schemeChar c = true) : plainChar c = true := by
+  simp only [schemeChar, Bool.or_eq_true, decide_eq_true_eq] at h
+  simp only [plainChar, Bool.or_eq_true, decide_eq_true_eq]
+  rcases h with (((h | h) | h) | h) | h
+  · exact Or.inl (Or.inl (Or.inl (Or.inl (isAlpha_isAlnum c h))))
+  · exact Or.inl (Or.inl (Or.inl (Or.inl (isDigit_isAlnum c h))))
+  · exact Or.inl (Or.inr h)
+  · exact Or.inl (Or.inl (Or.inr h))
+  · exact Or.inl (Or.inl (Or.inl (Or.inr h)))
+
+theorem dropWhile_head_false (f : Char → Bool) (l : Bytes) (x : Char) (xs : Bytes)
+    (h : l.dropWhile f = x :: xs) : f x = false := by
+  induction l with
+  | nil => simp at h
+  | cons c r ih =>
+    by_cases hc : f c = true
+    · rw [List.dropWhile_cons_of_pos hc] at h; exact ih h
+    · rw [List.dropWhile_cons_of_neg hc] at h
+      simp only [List.cons.injEq] at h
+      rw [← h.1]; simpa using hc
+
+theorem simpleAuthority_plain (a : Bytes) (h : simpleAuthority a = true) : ∀ c ∈ a, plainChar c = true := by
+  simp only [simpleAuthority, Bool.and_eq_true, List.all_eq_true] at h
+  obtain ⟨h1, h2⟩ := h
+  intro c hc
+  rw [← List.takeWhile_append_dropWhile (p := fun x => decide (x ≠ ':')) (l := a)] at hc
+  rcases List.mem_append.mp hc with hc | hc
+  · have := h1 c hc
+    simp only [Bool.or_eq_true, decide_eq_true_eq] at this
+    simp only [plainChar, Bool.or_eq_true, decide_eq_true_eq]
+    rcases this with (h | h) | h
+    · exact Or.inl (Or.inl (Or.inl (Or.inl h)))
+    · exact Or.inl (Or.inl (Or.inl (Or.inr h)))
+    · exact Or.inl (Or.inl (Or.inr h))
+  · cases hd : a.dropWhile (fun x => decide (x ≠ ':')) with
+    | nil => rw [hd] at hc; simp at hc
+    | cons x xs =>
+      rw [hd] at hc h2
+      have hx : x = ':' := by
+        have := dropWhile_head_false _ a x xs hd
+        simpa using this
+      rcases List.mem_cons.mp hc with e | e
+      · subst e; subst hx; decide
+      · have := h2 c (by simpa using e)
+        simp only [plainChar, Bool.or_eq_true, decide_eq_true_eq]
+        exact Or.inl (Or.inl (Or.inl (Or.inl (isDigit_isAlnum c this))))
+
+theorem plain_list_facts (l : Bytes) (h : ∀ c ∈ l, plainChar c = true) :
+    '?' ∉ l ∧ '/' ∉ l ∧ containsCTL l = false := by
+  induction l with
+  | nil => simp [containsCTL]
+  | cons c r ih =>
+    obtain ⟨i1, i2, i3⟩ := ih (fun x hx => h x (by simp [hx]))
+    have f := plainChar_facts c (h c (by simp))
+    refine ⟨?_, ?_, ?_⟩
+    · simp only [List.mem_cons, not_or]; exact ⟨fun e => f.1 e.symm, i1⟩
+    · simp only [List.mem_cons, not_or]; exact ⟨fun e => f.2.1 e.symm, i2⟩
+    · simp only [containsCTL, List.any_cons, Bool.or_eq_false_iff] at i3 ⊢
+      exact ⟨by simpa using f.2.2, i3⟩
+
+theorem scanScheme_tail (s rest : Bytes) (hs : s.all schemeChar = true) :
+    scanScheme false (s ++ ':' :: rest) = .found s rest := by
+  induction s with
+  | nil => simp [scanScheme, isAlpha, isDigit]
+  | cons c r ih =>
+    simp only [List.all_cons, Bool.and_eq_true] at hs
+    have ihr := ih hs.2
+    simp only [List.cons_append, scanScheme, ihr]
+    have hc := hs.1
+    simp only [schemeChar, Bool.or_eq_true, decide_eq_true_eq] at hc
+    by_cases ha : isAlpha c = true
+    · simp [ha]
+    · have : (isDigit c || decide (c = '+') || decide (c = '-') || decide (c = '.')) = true := by
+        simp only [Bool.or_eq_true, decide_eq_true_eq]
+        rcases hc with (((h | h) | h) | h) | h
+        · exact absurd h ha
+        · exact Or.inl (Or.inl (Or.inl h))
+        · exact Or.inl (Or.inl (Or.inr h))
+        · exact Or.inl (Or.inr h)
+        · exact Or.inr h
+      simp [ha, this]
+
+theorem takeWhile_dropWhile_slash (a p : Bytes) (ha : '/' ∉ a) (hp : p = [] ∨ p.head? = some '/') :
+    (a ++ p).takeWhile (fun x => decide (x ≠ '/')) = a ∧ (a ++ p).dropWhile (fun x => decide (x ≠ '/')) = p := by
+  induction a with
+  | nil =>
+    rcases hp with hp | hp
+    · subst hp; simp
+    · cases p with
+      | nil => simp at hp
+      | cons x xs => simp at hp; subst hp; simp
+  | cons c r ih =>
+    have hne : c ≠ '/' := fun e => ha (by simp [e])
+    have hc2 : decide (c ≠ '/') = true := by simpa using hne
+    obtain ⟨t1, t2⟩ := ih (fun e => ha (by simp [e]))
+    constructor
+    · rw [List.cons_append, List.takeWhile_cons]; simp only [hc2, if_true, t1]
+    · rw [List.cons_append, List.dropWhile_cons]; simp only [hc2, if_true, t2]
+
+theorem setPath_host (u0 u : URL) (p : Bytes) (h : setPath u0 p = some u) : u.host = u0.host := by
+  unfold setPath at h
+  split at h
+  · exact absurd h (by simp)
+  · split at h <;> (cases h; rfl)
+
+/-- **request-target round trip, absolute-form**: the path (`/` if empty) and the query of a valid absolute-form
+target come out of parse → copy → `RequestURI()` byte for byte; scheme and authority of the target are not used. -/
+theorem requestURI_parse_abs (base : URL) (s a p : Bytes) (q : Option Bytes)
+    (hs : validScheme s = true) (ha : simpleAuthority a = true) (hp : p = [] ∨ validPath p = true)
+    (hq : ∀ q', q = some q' → validQuery q' = true) :
+    ∃ u, parseRequestURI (absTarget s a p q) = some u ∧ u.host = String.ofList a ∧
+      requestURI { base with path := u.path, rawPath := u.rawPath, rawQuery := u.rawQuery, forceQuery := u.forceQuery }
+        = target (if p = [] then ['/'] else p) q := by
+  obtain ⟨c, s', rfl⟩ : ∃ c s', s = c :: s' := by
+    cases s with
+    | nil => simp [validScheme] at hs
+    | cons c s' => exact ⟨c, s', rfl⟩
+  simp only [validScheme, Bool.and_eq_true] at hs
+  obtain ⟨hc, hs'⟩ := hs
+  have hcplain := plainChar_facts c (schemeChar_plain c (by simp [schemeChar, hc]))
+  have hsplain := plain_list_facts s' (fun x hx => schemeChar_plain x (List.all_eq_true.mp hs' x hx))
+  have haplain := plain_list_facts a (simpleAuthority_plain a ha)
+  have hpf : '?' ∉ p ∧ containsCTL p = false ∧ (p = [] ∨ p.head? = some '/') := by
+    rcases hp with hp | hp
+    · subst hp; simp [containsCTL]
+    · have hv := hp
+      simp only [validPath, Bool.and_eq_true, decide_eq_true_eq] at hv
+      obtain ⟨-, -, h3, h4⟩ := validPathTail_facts p hv.2
+      exact ⟨h3, h4, Or.inr hv.1⟩
+  have hqctl : containsCTL (qstr q) = false := by
+    cases hqe : q with
+    | none => simp [qstr, containsCTL]
+    | some q' =>
+      have := validQuery_noCTL q' (hq q' hqe)
+      simp only [qstr, containsCTL, List.any_cons, Bool.or_eq_false_iff] at this ⊢
+      exact ⟨by decide, this⟩
+  have hshape : absTarget (c :: s') a p q = [c] ++ (s' ++ ([':', '/', '/'] ++ (a ++ (p ++ qstr q)))) := by
+    simp [absTarget, target_eq]
+  have hctl : containsCTL (absTarget (c :: s') a p q) = false := by
+    have h1 : containsCTL [c] = false := by
+      simp only [containsCTL, List.any_cons, List.any_nil, Bool.or_false]; simpa using hcplain.2.2
+    have h2 : containsCTL [':', '/', '/'] = false := by decide
+    rw [hshape]
+    simp only [containsCTL_append, h1, h2, hsplain.2.2, haplain.2.2, hpf.2.1, hqctl, Bool.or_false]
+  have hhead : (absTarget (c :: s') a p q).head? ≠ some '/' := by
+    rw [hshape]; simp only [List.singleton_append, List.head?_cons, ne_eq, Option.some.injEq]; exact hcplain.2.1
+  have hscan : scanScheme true (absTarget (c :: s') a p q) = .found (c :: s') ('/' :: '/' :: (a ++ p) ++ qstr q) := by
+    have : absTarget (c :: s') a p q = c :: (s' ++ ':' :: ('/' :: '/' :: (a ++ p) ++ qstr q)) := by
+      simp [absTarget, target_eq]
+    rw [this]
+    simp only [scanScheme, hc, if_true, scanScheme_tail s' _ hs']
+  have hb : '?' ∉ '/' :: '/' :: (a ++ p) := by
+    simp only [List.mem_cons, List.mem_append, not_or]
+    exact ⟨by decide, by decide, haplain.1, hpf.1⟩
+  have hsq := splitQuery_target ('/' :: '/' :: (a ++ p)) hb q
+  obtain ⟨htw, hdw⟩ := takeWhile_dropWhile_slash a p haplain.2.1 hpf.2.2
+  have hparse : parseRequestURI (absTarget (c :: s') a p q) =
+      setPath { scheme := String.ofList ((c :: s').map Char.toLower), host := String.ofList a,
+                forceQuery := (qparts q).1, rawQuery := (qparts q).2 } p := by
+    unfold parseRequestURI
+    rw [if_neg (by rw [hctl]; simp), if_neg hhead, hscan]
+    simp only [hsq, htw, hdw, ha, if_true]
+  rcases hp with hp | hp
+  · subst hp
+    refine ⟨{ scheme := String.ofList ((c :: s').map Char.toLower), host := String.ofList a,
+              forceQuery := (qparts q).1, rawQuery := (qparts q).2, path := [], rawPath := [] },
+      by rw [hparse]; simp [setPath, unescape, escape], rfl, ?_⟩
+    rw [requestURI_shape _ [] (by simp [escapedPath, escape]) q rfl rfl, target_eq]
+  · obtain ⟨u, hu, hf, hrq, hesc⟩ := escapedPath_setPath
+      { scheme := String.ofList ((c :: s').map Char.toLower), host := String.ofList a,
+        forceQuery := (qparts q).1, rawQuery := (qparts q).2 } p hp
+    refine ⟨u, by rw [hparse]; exact hu, setPath_host _ _ _ hu, ?_⟩
+    have hpne : p ≠ [] := by intro e; subst e; simp [validPath] at hp
+    have e := hesc { base with path := u.path, rawPath := u.rawPath, rawQuery := u.rawQuery, forceQuery := u.forceQuery } rfl rfl
+    rw [requestURI_shape _ p e q hf hrq, target_eq]
+
 end FwdURL
